@@ -253,6 +253,34 @@ func VerifC12Tree() {
 	vf.Reach("done")
 }
 
+// VerifC12Priority: a priority group of 2..K leaves whose priorities are
+// symbolic digits: z3 decides every order relation among them (descending
+// priority, the later-listed first among equals, ties at any rank).
+func VerifC12Priority() {
+	k := 2 + vf.Choice("children", vf.Param("fanout")-1)
+	root := &rnode{kind: nPrio, req: true, res: true}
+	js := `{"priority.Group": {"modifiers": [`
+	for i := 0; i < k; i++ {
+		d := vf.String("priority", 1)
+		vf.Assume(d[0] >= '0' && d[0] <= '9')
+		label := "L" + strconv.Itoa(i+1)
+		if i > 0 {
+			js += ", "
+		}
+		js += `{"priority": ` + d + `, "modifier": {"header.Append": {"name": "X-Trace", "value": "` + label + `"}}}`
+		root.kids = append(root.kids, &rnode{kind: nLeaf, label: label, req: true, res: true})
+		root.prios = append(root.prios, int64(d[0]-'0'))
+	}
+	js += `]}}`
+	r, err := parse.FromJSON([]byte(js))
+	vf.Assert(err == nil, "valid-configuration-accepted")
+	if err != nil {
+		return
+	}
+	run(r, root, 0, "priority")
+	vf.Reach("done")
+}
+
 type rw struct {
 	h      http.Header
 	status int
